@@ -6,6 +6,7 @@ mod finalize;
 mod flatten;
 mod group;
 mod probe;
+mod retire;
 mod sexp;
 mod subalg;
 mod subj;
@@ -32,6 +33,7 @@ fn run_case(case: &Sexp) -> String {
     "async" => asyncsrc::run_async(body),
     "atform" => timed::run_atform(body),
     "subalg" => subalg::run_subalg(body),
+    "retire" => retire::run_retire(body),
     "finalize" => finalize::run_finalize(body),
     "finalize_race" => finalize::run_finalize_race(body),
     "subject" => subj::run_subject(body),
